@@ -70,6 +70,10 @@ func c10GuardedPath(style string) (path, guess string) {
 // c10Spell writes an import path literal the way the case asks for.
 func c10Spell(path, spelling string) string {
 	switch spelling {
+	case "upper":
+		// another path: the same letters, one of them in the other case
+		i := strings.LastIndexAny(path, "abcdefghijklmnopqrstuvwxyz")
+		return "\"" + path[:i] + strings.ToUpper(path[i:i+1]) + path[i+1:] + "\""
 	case "raw":
 		return "`" + path + "`"
 	case "escaped":
@@ -312,6 +316,9 @@ func c10Expect(cs *c10Case) bool {
 		}
 		return false
 	}
+	if cs.Spelling == "upper" && cs.PatchForm != "absent" {
+		return false // the file imports another path
+	}
 	switch cs.PatchForm {
 	case "absent":
 	case "unnamed":
@@ -382,7 +389,7 @@ var (
 		{"guess"}, {"guess", "unnamed"}, {"nm", "guess"},
 	}
 	c10Styles    = []string{"", "gopkg", "slashv", "goprefix"}
-	c10Spellings = []string{"", "raw", "escaped"}
+	c10Spellings = []string{"", "raw", "escaped", "upper"}
 	c10Layouts   = []string{"singles", "group", "group-among", "two-blocks", "singles-among", "after-unrelated-group", "first-then-group", "reversed-group"}
 	c10Pkgs      = []string{"absent", "same", "different", "file-test", "guard-test", "both-test", "guard-prefix", "guard-longer", "case"}
 	c10Bodies    = []string{"", "expr-to-stmts", "stmts", "decl"}
